@@ -637,3 +637,25 @@ Qed.
 Lemma rejects_call_of_unknown_function T self G f args :
   String.eqb f self = false -> flookup f T = None -> trc_expr T self G (CCall f args) = None.
 Proof. intros Hs Hf. cbn [trc_expr]. rewrite Hs, Hf. destruct (smem f G); reflexivity. Qed.
+
+(* ---------------------------------------------------------------- on the thread machine *)
+(* the machine of C03 (Lang/GlConc.v; on one thread, with condition-variable
+   waits as the sequential semantics executes them) runs the emitted call to
+   the value Go returns *)
+From GV Require Import Lang.GlConc Lang.GlMachineSeq.
+
+Lemma Forall2_weaken {A B} (R1 R2 : A -> B -> Prop) l1 l2 :
+  (forall a b, R1 a b -> R2 a b) -> Forall2 R1 l1 l2 -> Forall2 R2 l1 l2.
+Proof. intros Hi HF. induction HF; constructor; auto. Qed.
+
+Theorem prog_correct_on_the_machine P vs :
+  trc_prog P = Some vs ->
+  Forall2 (fun fn F => forall n args v s,
+             length args = length (cf_params fn) ->
+             cgo_body n P (rev (combine (cf_params fn) args)) (cf_body fn) = Some v ->
+             exists k, mrun_seq k (call_expr F args) s = Some (v, s)) P vs.
+Proof.
+  intros Htr. refine (Forall2_weaken _ _ _ _ _ (prog_correct P vs Htr)).
+  intros fn F H n args v s Hlen Hgo. destruct (H n args v s Hlen Hgo) as [m Hm].
+  exact (eval_is_mrun_seq m _ _ _ _ Hm).
+Qed.
